@@ -35,6 +35,10 @@ HAND = [
     {"exit": False, "progs": [[["rel", 0, 0.3], ["imm", 1]], [["rel", 2, 0.1]]], "nested": {"1": [["imm", 3]]}},
     {"exit": True, "progs": [[["imm", 0]], [["imm", 1]]], "nested": {}},
     {"exit": True, "progs": [[["imm", 0]], [["rel", 1, 0.1]]], "nested": {}},
+    # two items that the loop can pick up in one cycle; the later one is cancelled by its scheduler while the loop is inside the
+    # earlier one, or by the earlier action itself
+    {"exit": False, "progs": [[["imm", 0], ["imm", 1], ["cancel", 1]]], "nested": {}},
+    {"exit": False, "progs": [[["imm", 0], ["imm", 1], ["imm", 2]]], "nested": {"0": [["cancel", 1]]}},
 ]
 
 
@@ -67,7 +71,8 @@ def gen_program(r: Any) -> dict:
             elif depth == 0:
                 out.append(["dispose"])
             if out and out[-1][0] in ("imm", "rel", "abs") and depth < 2 and r.random() < 0.25:
-                nested[str(out[-1][1])] = ops(r.randint(1, 2), [], depth + 1, nested)
+                # (an action may cancel items its scheduling thread has scheduled before it: siblings of the same batch)
+                nested[str(out[-1][1])] = ops(r.randint(1, 2), [x for x in own if x != out[-1][1]], depth + 1, nested)
         return out
 
     nested: dict = {}
